@@ -306,7 +306,9 @@ def gen_program(rng, max_calls=8):
             cur = []
     if cur:
         sessions.append(cur)
-    return {'sessions': sessions, 'version': rng.choice([4712, 4713])}
+    return {'sessions': sessions, 'version': rng.choice([4712, 4713]),
+            # the file is always opened for appending, also the first time, when it does not exist yet (a logger's habit)
+            'first_mode': 'a' if rng.random() < 0.1 else 'w'}
 
 
 # ------------------------------------------------------------------------------ materialisation
